@@ -309,6 +309,14 @@ def spline_obligations(S, F, pid_filter=None):
             yield ("C03:bc-right[NotAKnot,lane=%d]" % l, [right[n - 3][3] - left[n - 2][3]])
         if S.periodic:
             yield ("C03:bc-periodic[lane=%d]" % l, [left[0][1] - right[n - 2][1], left[0][2] - right[n - 2][2]])
+        # ---- range guard / extrapolation flag (C05, C06): outside queries are rejected iff extrapolation is off
+        if l == 0:
+            outside_ok = [k for k in ("PL:0", "PR:0") if k in S.out]
+            outside_err = [k for k in ("PL:ERR", "PR:ERR") if k in S.out]
+            if S.extrap:
+                yield ("C06:never-rejects-outside[%s]" % S.bc, [F.one] if outside_err else [F.zero])
+            else:
+                yield ("C05:outside-rejected-without-extrapolation[%s]" % S.bc, [F.one] if outside_ok else [F.zero])
         # ---- extrapolation continues the end polynomial (C06)
         if ("PL:%d" % l) in S.out and not S.periodic:
             pl = T("PL:%d" % l, "qL", X[0])
